@@ -321,4 +321,104 @@ theorem C07_w3c_unrevealed_adds_nothing {r : Request} {c : HeldW3C} {ref : Strin
 
 end W3C
 
+/-! ## no secrets -/
+
+/-- the part of a sub-proof that service code (and the wire form) exposes: revealed names and values,
+and predicates; the other fields of `SymSub` are ghosts for the ideal functionality -/
+def visibleSub (s : SymSub) : List (String × String) × List Pred := (s.revealed, s.preds)
+
+/-- **The link secret, the credential signature and the revocation witness are not in a
+presentation.** By construction: `Presentation`, `VerifierW3C.Presentation`/`Cred` and `SymSub` have
+no field for any of them — the three equations list *all* their fields (`cred`, `nrp`, `ms`, `intact`,
+`uid` of a sub-proof are ghosts read only by the ideal functionality: they say what the zero-knowledge
+proof was built from, they are not data one can read off it). What the model can state beyond that:
+the visible part of a presentation does not depend on the holder's link secret, the session's blinding
+or the numbering of the sub-proofs — building it with other ones succeeds too and yields the same
+`requested_proof`, identifiers, and revealed values / predicates of every sub-proof. The real check of
+this clause is the harness scan of serialised presentations for the secret values. -/
+theorem C07_no_secrets :
+    (∀ p : Verifier.Presentation, p = ⟨p.revealed, p.groups, p.selfAttested, p.unrevealed, p.predicates,
+      p.identifiers, p.subs, p.agg⟩) ∧
+    (∀ c : VerifierW3C.Cred, c = ⟨c.issuer, c.subject, c.proofOk, c.verificationMethod, c.schemaId, c.credDefId,
+      c.revRegId, c.timestamp, c.sub⟩) ∧
+    (∀ s : SymSub, s = ⟨s.revealed, s.preds, s.cred, s.nrp, s.ms, s.intact, s.uid⟩) ∧
+    (∀ {pc : PCtx} {r : Request} {sel : List Selected} {sa : List (String × String)}
+      {holder session uid0 : Nat} {p : Verifier.Presentation} (holder' session' uid0' : Nat),
+      createPresentation pc r sel sa holder session uid0 = some p →
+      ∃ p', createPresentation pc r sel sa holder' session' uid0' = some p' ∧
+        p'.revealed = p.revealed ∧ p'.groups = p.groups ∧ p'.selfAttested = p.selfAttested ∧
+        p'.unrevealed = p.unrevealed ∧ p'.predicates = p.predicates ∧
+        p'.identifiers = p.identifiers ∧ p'.subs.map visibleSub = p.subs.map visibleSub) := by
+  refine ⟨fun _ => rfl, fun _ => rfl, fun _ => rfl, ?_⟩
+  intro pc r sel sa holder session uid0 p holder' session' uid0' h
+  unfold createPresentation at h ⊢
+  simp only [] at h ⊢
+  split at h
+  · cases h
+  · rename_i h1
+    rw [if_neg h1]
+    split at h
+    · cases h
+    · rename_i h2
+      rw [if_neg h2]
+      split at h
+      · rename_i parts subs hp hs
+        injection h with h
+        subst h
+        obtain ⟨subs', hs', hvis⟩ := mapM_indep (vis := visibleSub)
+          (f := fun si : Selected × Nat => addSubProof pc r si.1 holder session (uid0 + si.2))
+          (f' := fun si : Selected × Nat => addSubProof pc r si.1 holder' session' (uid0' + si.2))
+          (fun si => ⟨fun sub => { sub with ms := (holder', session'), uid := uid0' + si.2 },
+            addSubProof_indep .., fun _ => rfl⟩) hs
+        rw [hp, hs']
+        exact ⟨_, rfl, rfl, rfl, rfl, rfl, rfl, rfl, hvis⟩
+      · cases h
+
+/-! ## non-vacuity: a small concrete flow
+
+Credential `a ↦ 25`, `b ↦ 7` (encoding carried as `"007"`), `cd ↦ 3`; the holder reveals `b` (single)
+and the group `b`, `c D`, leaves `a` unrevealed and proves `a ≥ 18`. The presentation exposes `7`,
+`007`, `3` at index 0 — and nothing of `a` (value `25`). -/
+section Examples
+private def xSym : SymCred := { key := 1, attrs := [("a", "25"), ("b", "7"), ("cd", "3")], holder := 5, rev := none }
+private def xCred : HeldCred :=
+  { schemaId := "s1", credDefId := "cd1", revRegId := none,
+    values := [("A", ("25", "25")), ("b", ("7", "007")), ("C d", ("3", "3"))], sym := xSym }
+private def xReq : Request :=
+  { nonce := "n", nonRevoked := none,
+    attrs := [("r1", { name := some "B", names := none, restrictions := none, nonRevoked := none }),
+              ("r2", { name := some " a", names := none, restrictions := none, nonRevoked := none }),
+              ("g1", { name := none, names := some ["b", "c D"], restrictions := none, nonRevoked := none })],
+    preds := [("p1", { name := "A", ty := "GE", value := 18, restrictions := none, nonRevoked := none })] }
+private def xSel : List Selected :=
+  [{ cred := xCred, timestamp := none, revState := none,
+     attrs := [("r1", true), ("r2", false), ("g1", true)], preds := ["p1"] }]
+private def xPc : PCtx := { schemas := [("s1", ["a", "B", "c D"])], credDefs := ["cd1"] }
+private def xSelW : List SelectedW3C :=
+  [{ cred := { issuer := "iss", schemaId := "s1", credDefId := "cd1", revRegId := none,
+               subject := [("A", .num 25), ("b", .str "7"), ("C d", .str "3")], sym := xSym },
+     timestamp := none, revState := none,
+     attrs := [("r1", true), ("r2", false), ("g1", true)], preds := ["p1"] }]
+
+set_option maxRecDepth 100000 in
+example : (createPresentation xPc xReq xSel [] 5 1 0).map disclosedLegacy =
+    some [(0, "7"), (0, "007"), (0, "7"), (0, "007"), (0, "3"), (0, "3"), (0, "7"), (0, "3")] := by decide
+set_option maxRecDepth 100000 in
+example : (createPresentation xPc xReq xSel [] 5 1 0).map (disclosedNamesLegacy xReq) =
+    some [(0, "b"), (0, "b"), (0, "cd"), (0, "b"), (0, "cd")] := by decide
+set_option maxRecDepth 100000 in
+example : (createPresentation xPc xReq xSel [] 5 1 0).map (fun p => (p.unrevealed, p.predicates)) =
+    some ([("r2", 0)], [("p1", 0)]) := by decide
+-- W3C: the subject has the revealed entries and the predicate marker, nothing else
+set_option maxRecDepth 100000 in
+example : (createPresentationW3C xPc xReq xSelW 5 1 0).map (fun p => p.creds.map (·.subject)) =
+    some [[("b", .str "7"), ("C d", .str "3"), ("A", .bool true)]] := by decide
+-- with the group left unrevealed (F8): only the single `b`
+set_option maxRecDepth 100000 in
+example : (createPresentationW3C xPc xReq
+      (xSelW.map (fun s => { s with attrs := [("r1", true), ("r2", false), ("g1", false)] })) 5 1 0).map
+      (fun p => p.creds.map (·.subject)) =
+    some [[("b", .str "7"), ("A", .bool true)]] := by decide
+end Examples
+
 end AnonModel.Prover
